@@ -128,6 +128,9 @@ class Multiplication:
       if lc.record_type == "E" and not gfapy.is_placeholder(lc.eid):
         # identifiers are unique: the copy of a named edge is unnamed
         lc.eid = gfapy.Placeholder()
+      elif lc.record_type in ["L", "C"] and lc.get("ID") is not None:
+        # the same for the ID tag of a GFA1 link or containment
+        lc.delete("ID")
       lc.connect(self)
 
   LINKS_DISTRIBUTION_POLICY = ["off", "auto", "equal", "L", "R"]
